@@ -414,7 +414,7 @@ func runC18(c *Ctx) {
 	// (a) layout invariant on every state of a BFS, all configurations of the quick set
 	depth := 3
 	if c.Tier == "thorough" {
-		depth = 4
+		depth = 5
 	}
 	cfgs := append([]Cfg{}, cfgQuick...)
 	cfgs = append(cfgs, Cfg{Compress: true, Lower: true}, Cfg{Ext: ".obj", Async: 1, Compress: true})
